@@ -36,7 +36,7 @@ def check(run):
     _cx(run, cx)
     _be(run, be)
     _plasma(run, pl)
-    run.include('C01', set(FILES), 'the cached receiver species, rates and populations must follow changes of the plasma composition')
+    run.include('C01', set(FILES) | {'cherab/core/plasma/node.pyx', 'cherab/core/plasma/model.pyx', 'cherab/core/utility/notify.py'}, 'the cached receiver species, rates and populations must follow changes of the plasma composition')
     from ..cachekey import check_caches
     check_caches(run, [m_ for m_ in prog.modules.values() if m_.relpath in set(FILES) and not m_.name.endswith('#pxd')], 'C05-K', prog=prog)
 
